@@ -21,6 +21,9 @@ ENGINES = [
                        "interleaving-independent facts to C01 C05 C08 C11 C16"},
     {"name": "realproc", "path": "lib/domain.py (c18, c19, c20) + harness/realprobe + tla/{Env,Logs,Procs,Rows*}.tla", "serves_properties": ["C18", "C19", "C20"],
      "kind_free_text": "real PipelineRunner + real TaskRunner + /bin/sh children; cases from TLC-enumerated specs; rows validated by TLC"},
+    {"name": "exec", "path": "lib/domain.py (exec_engine) + harness/realprobe (TestExec) + tla/{TaskExec,RowsExec}.tla", "serves_properties": ["C04", "C08"],
+     "kind_free_text": "TLC-checked case spec of the real task runner's execute loop (line outcomes, allow_failure, cancel, dependent task); "
+                       "every case run with real processes; rows validated by TLC"},
     {"name": "store", "path": "lib/store_engine.py + harness/storeprobe + tla/{Store,StoreTrace}.tla", "serves_properties": ["C09"],
      "kind_free_text": "TLC-checked crash model of the save protocol; strace traces validated by TLC; real SIGKILL at every syscall boundary"},
     {"name": "auth", "path": "lib/domain.py (c14) + harness/authprobe + tla/{AuthTable,Auth,AuthTrace}.tla", "serves_properties": ["C14"],
